@@ -1382,7 +1382,7 @@ class AtLeast(puan.Proposition):
                 value=self.value,
                 propositions=maz.filter_map_concat(
                     # If proposition has a constant bound after evaluating it
-                    lambda prop: prop.id in new_variable_bounds,
+                    lambda prop: prop.id in new_variable_bounds and prop.bounds.constant is not None,
                     # If is a constant, just keep the variable from the proposition
                     # else, keep the proposition as is
                     lambda prop: prop if issubclass(prop.__class__, puan.variable) else prop.variable,
